@@ -209,10 +209,10 @@ func (s span) contains(v *Version, includePrerelease bool) bool {
 	// everything, we need to check the prerelease tags.
 	if v.sys != Maven && v.isPrerelease {
 		// Numbers must match either min or max and pre must be in range.
-		if min.isPrerelease && equalValues(v.num, min.num) && s.min.lessThanOrEqual(v) {
+		if min.isPrerelease && numsEqual(v, min) && s.min.lessThanOrEqual(v) {
 			return true
 		}
-		if max.isPrerelease && equalValues(v.num, max.num) { // Already know v <= max.
+		if max.isPrerelease && numsEqual(v, max) { // Already know v <= max.
 			return true
 		}
 		return false // There may be more at this min to check, such as 1.2.0-p1 || 1.2.0-p2.
